@@ -883,6 +883,8 @@ func (e *Exec) invCtx(fn *ssa.Function, l *loopInfo, st *State) *specCtx {
 func (e *Exec) loopModified(fn *ssa.Function, l *loopInfo) (map[string]string, bool) {
 	keys := map[string]string{}
 	all := false
+	e.loopExcept = nil
+	first := true
 	// freshness relative to the loop: only objects allocated inside the body are invisible at its head
 	freshScope = l.body
 	defer func() { freshScope = nil }()
@@ -892,6 +894,14 @@ func (e *Exec) loopModified(fn *ssa.Function, l *loopInfo) (map[string]string, b
 			for k, s := range a.keys {
 				if a.old[k] {
 					keys[k] = s
+				}
+			}
+			if a.all {
+				if first {
+					e.loopExcept = append([]string(nil), a.except...)
+					first = false
+				} else {
+					e.loopExcept = intersectStrs(e.loopExcept, a.except)
 				}
 			}
 			all = all || a.all
